@@ -2,7 +2,7 @@
 
 The real mutators of eko.io (EKO.__setitem__, load_recipes, update, xgrid setter, dump to the default archive, every Inventory.__setitem__) and EKO.close run
 unmodified over the ghost file system of contracts/ghostfs.py, which logs every disk-changing operation.
-requires  an EKO that is (a) open and read-only, or (b) closed (after a regular close of a read-only or of a writeable EKO)
+requires  an EKO that is (a) open and read-only -- opened from an archive or from an already extracted folder (no archive path) --, or (b) closed (after a regular close of a read-only or of a writeable EKO)
 ensures   every attempt to store an operator, a recipe or metadata raises ReadOnlyOperator resp. ClosedOperator (both OutputError) and performs NO
           disk-changing operation before raising -- in any order and any number of attempts (the attempts do not change `access`, so one attempt of each kind
           from each state covers every sequence: frame condition checked on `access` after each attempt);
@@ -84,7 +84,7 @@ def run(chk):
         def update(self):
             (self.path / "metadata.yaml").write_text("metadata-changed")
 
-    def fresh(readonly, open_):
+    def fresh(readonly, open_, with_archive=True):
         fs = G.FS()
         fs.dirs |= {"/tmp/eko-w", "/tmp/eko-w/operators", "/tmp/eko-w/parts", "/tmp/eko-w/parts/matching", "/tmp/eko-w/recipes", "/tmp/eko-w/recipes/matching"}
         fs.files["/tmp/eko-w/metadata.yaml"] = "metadata"
@@ -93,7 +93,8 @@ def run(chk):
         fs.files["/tmp/eko-w/operators/" + inventory.header_name(tgt)] = "header"
         fs.files["/tmp/eko-w/operators/" + inventory.operator_name(tgt, err=False)] = "bytes:stored-operator"
         work = G.GPath(fs, "/tmp/eko-w")
-        access = AccessConfigs(G.GPath(fs, "/out/a.tar"), readonly=readonly, open=open_)
+        # an EKO opened from an already extracted folder has no archive path (EKO.read(folder, extract=False) / EKO.load)
+        access = AccessConfigs(G.GPath(fs, "/out/a.tar") if with_archive else None, readonly=readonly, open=open_)
         eko = struct.EKO(**struct.inventories(work, access), metadata=FakeMeta(work), access=access)
         return fs, eko
 
@@ -115,9 +116,12 @@ def run(chk):
     items.Operator.save = lambda self, fd: (fd.write(b"operator-bytes"), self.error is None)[1]
     items.Operator.load = classmethod(lambda cls, fd: items.Operator("loaded:" + fd.read().decode()))
     try:
-        for state, readonly, open_, err in (("readonly", True, True, ReadOnlyOperator), ("closed_readonly", True, False, ClosedOperator), ("closed_writeable", False, False, ClosedOperator)):
+        for state, readonly, open_, err in (("readonly", True, True, ReadOnlyOperator), ("closed_readonly", True, False, ClosedOperator), ("closed_writeable", False, False, ClosedOperator),
+                                            ("readonly_extracted_folder", True, True, ReadOnlyOperator), ("closed_extracted_folder", True, False, ClosedOperator)):
             for name, attempt in ATT.items():
-                fs, eko = fresh(readonly, open_)
+                if state.endswith("extracted_folder") and name == "dump_to_default_archive":
+                    continue          # no default archive to dump to
+                fs, eko = fresh(readonly, open_, with_archive=not state.endswith("extracted_folder"))
                 undo = G.install(fs, struct, inventory, metadata_mod)
                 before = fs.clone_state()
                 acc = (eko.access.path, eko.access.readonly, eko.access.open)
